@@ -9,6 +9,7 @@ import (
 	"bytes"
 	"fmt"
 	"runtime/debug"
+	"strings"
 	"sync"
 	"time"
 
@@ -300,7 +301,10 @@ func (w *v1World) stress(r *ev.Run, cacheSize, goroutines, iters int) {
 				r.Count(w.tag+"v1_getter_calls", 1)
 				r.SetAdd(w.tag+"v1_getter_x_cache", g.Name+"/"+cc)
 				if err != nil {
-					if err.Error() != "panic" {
+					if w.tag != "" && strings.Contains(err.Error(), "i/o timeout") {
+					// go-redis' read/write timeout (3 s of WALL clock) on a saturated machine: says nothing about the keystore
+					r.Inconclusive("redis v1: a Redis command timed out on the client side (wall-clock timeout of go-redis; machine overloaded)")
+				} else if err.Error() != "panic" {
 						r.Violation(w.prefix+fmt.Sprintf("v1 %s failed under concurrent use: %s: cache=%s", g.Name, errClass(err.Error()), cc),
 							map[string]interface{}{"getter": g.Name, "client": string(id), "error": err.Error(), "goroutines": goroutines, "seed": r.Seed})
 					}
